@@ -194,7 +194,11 @@ def effects(ctx):
         v = params[1]
         atom_fn = make_atom_fn(fn, _aliases(fn))
         for n in iter_own_nodes(fn.node):
-            if not (isinstance(n, ast.Assign) and len(n.targets) == 1 and isinstance(n.targets[0], ast.Name) and n.targets[0].id == v):
+            # an update of the result: `v = <expr>`, or the same handed back at once (`return <expr over v>`)
+            is_upd = isinstance(n, ast.Assign) and len(n.targets) == 1 and isinstance(n.targets[0], ast.Name) and n.targets[0].id == v
+            is_ret = isinstance(n, ast.Return) and n.value is not None and not isinstance(n.value, (ast.Name, ast.Constant)) \
+                and any(isinstance(x, ast.Name) and x.id == v for x in ast.walk(n.value))
+            if not (is_upd or is_ret):
                 continue
             val = n.value
             kind = None
